@@ -92,6 +92,8 @@ def run(ctx):
     ctx.rule("R5.exclusion-passes-independent", "filter / where_available_for_current_thread iterate candidate_processors() and read no criterion that can change later", floor=2)
     ctx.rule("R6.total-grouping", "candidates_by_memory_region merges per region via entry().or_insert_with().push in a loop over all filtered candidates", floor=1)
 
+    ctx.rule("R7.pick-removes-picked", "a loop that revisits a candidate list and pushes one randomly picked element per visit removes exactly that element (same pick, by index) from the list", floor=1)
+    ctx.rule("R8.prefer-same-largest-first", "prefer-same consumes regions from a list totally sorted by (clamped) candidate count, largest first, with no re-ordering after the sort", floor=1, shape_dependent=True)
     take = prog.one("processor_set_builder::ProcessorSetBuilder::take")
     take_all = prog.one("processor_set_builder::ProcessorSetBuilder::take_all")
     cbm = prog.one("processor_set_builder::ProcessorSetBuilder::candidates_by_memory_region")
@@ -297,6 +299,7 @@ def run(ctx):
             ok = "candidate_processors" in ks and "filter_map" in ks and not ({"chunk_by", "group_by", "dedup_by_key", "take_while", "skip_while", "step_by"} & ks)
     ctx.ob("R6.total-grouping", "candidates_by_memory_region", ok, cbm.loc(),
            f"entry sites {len(ent)}, or_insert sites {len(oi)}, push sites {len(pu)}, replace-on-duplicate constructions: {repl or 'none'}")
+    selection_order_rules(ctx, prog, take)
 
 
 def _tests_len(b, blk, vroot):
@@ -319,3 +322,76 @@ def _arm(b, bb):
         if g["src"].get("kind") == "discr" and len(g["allowed"]) == 1:
             adt_vals.append(str(sorted(g["allowed"], key=str)[0]))
     return "selector=" + "/".join(adt_vals[-1:]) if adt_vals else f"bb{bb}"
+
+
+
+def selection_order_rules(ctx, prog, take):
+    dom = take.dominators(unwind=False)
+    # ---------------- R7
+    n = 0
+    for bb, t in take.calls():
+        if t["callee"].get("method") != "push" or "Vec" not in callee_key(t["callee"]) or not take.in_loop(bb):
+            continue
+        sl = Slice(take).run(t["args"][1])
+        picks = [(k, cbb, ct) for k, cbb, ct in sl["calls"] if ct["callee"].get("method") == "choose" and take.in_loop(cbb)]
+        if not picks:
+            continue
+        n += 1
+        pick = picks[0][2]
+        # is the picked-from list revisited? (the pick's source is reached through a &mut iteration such as values_mut/iter_mut)
+        src = Slice(take).run(pick["args"][0])
+        names = {ct["callee"].get("method") for _k, _b, ct in src["calls"]}
+        revisited = bool(names & {"values_mut", "iter_mut", "get_mut"})
+        rem = []
+        for rbb, rt in take.calls():
+            if rt["callee"].get("method") in ("remove", "swap_remove") and "Vec" in callee_key(rt["callee"]) and take.in_loop(rbb):
+                isl = Slice(take).run(rt["args"][1])
+                same_pick = any(ct is pick for _k, _b, ct in isl["calls"])
+                r1, _f = op_access_path(take, rt["args"][0])
+                r2, _f2 = op_access_path(take, pick["args"][0])
+                lsl = Slice(take).run(rt["args"][0])
+                same_list = bool({id(ct) for _k, _b, ct in lsl["calls"]} & {id(ct) for _k, _b, ct in src["calls"]})
+                ordered = rbb in dom.get(bb, ()) or bb in dom.get(rbb, ())
+                rem.append((rbb, same_pick, same_list, ordered))
+        ok = (not revisited) or any(a and b_ and c for _r, a, b_, c in rem)
+        others = [rt["callee"].get("method") for rbb, rt in take.calls() if take.in_loop(rbb) and "Vec" in callee_key(rt["callee"]) and
+                  rt["callee"].get("method") in ("pop", "truncate", "drain", "clear", "retain")]
+        ctx.ob("R7.pick-removes-picked", f"take.push@{'revisited' if revisited else 'once'}#{n}", ok, take.loc(t["span"]),
+               f"picked element pushed; list revisited by the enclosing loop: {revisited}; removals by the picked index on the same list in the same iteration: "
+               f"{[(a, b_, c) for _r, a, b_, c in rem]}; other shrinking calls in the loop: {others}")
+    if n == 0:
+        ctx.missing("R7.pick-removes-picked", "push of a randomly picked element inside a loop of take()")
+
+    # ---------------- R8
+    pops = [(bb, t) for bb, t in take.calls() if t["callee"].get("method") in ("pop_front", "pop_back", "pop") and take.in_loop(bb)
+            and "VecDeque" in callee_key(t["callee"])]
+    if len(pops) != 1:
+        ctx.missing("R8.prefer-same-largest-first", f"exactly one VecDeque pop in a loop of take() (found {len(pops)})")
+        return
+    pbb, pt = pops[0]
+    root, _fs = op_access_path(take, pt["args"][0])
+    same_root = [(bb, t) for bb, t in take.calls() if t["args"] and op_access_path(take, t["args"][0])[0] == root and bb != pbb]
+    sorts = [(bb, t) for bb, t in same_root if (t["callee"].get("method") or "").startswith("sort")]
+    revs = [(bb, t) for bb, t in same_root if t["callee"].get("method") == "reverse"]
+    reorder = [(bb, t) for bb, t in same_root if t["callee"].get("method") in ("shuffle", "swap", "rotate_left", "rotate_right", "partial_shuffle",
+                                                                               "select_nth_unstable", "select_nth_unstable_by_key", "push_front", "insert")]
+    ok = len(sorts) == 1 and sorts[0][0] in dom[pbb]
+    det = [f"sort calls on the region list: {[t['callee'].get('method') for _b, t in sorts]}"]
+    if ok:
+        sbb, st = sorts[0]
+        # key closure measures the candidate count of the region
+        key_ok = False
+        rev_key = False
+        for c in prog.closures_of(take):
+            if any(op_local(a) is not None and c.key in " ".join(take.local_ty(op_local(a)).get("closures", [])) for a in st["args"][1:]):
+                ms = {ct["callee"].get("method") for _b, ct in c.calls()}
+                key_ok = "len" in ms and "get" in ms
+                rev_key = any("cmp::Reverse" in str(l["ty"]["s"]) for l in c.locals)
+        front = pt["callee"].get("method") == "pop_front"
+        desc = (len(revs) == 1 and sbb in dom[revs[0][0]] and revs[0][0] in dom[pbb]) != rev_key
+        # largest first: (ascending sort + reverse, pop_front) or (ascending sort, pop_back) ...
+        largest_first = (desc and front) or (not desc and not front and not revs)
+        late = [t["callee"].get("method") for bb, t in reorder if sbb in dom[bb]]
+        ok = key_ok and largest_first and not late
+        det.append(f"key = candidate count of the region: {key_ok}; consumed largest-first: {largest_first}; re-ordering after the sort: {late or 'none'}")
+    ctx.ob("R8.prefer-same-largest-first", "take.prefer-same", ok, take.loc(pt["span"]), "; ".join(det))
